@@ -3,7 +3,7 @@
    sumor -> OCaml types; fst/snd/andb/orb/negb inlined).  nat, positive, N, Z stay inductive. *)
 Require Extraction.
 Require Import ExtrOcamlBasic.
-From MD Require Import Bytes Generated DecodeDefs HeaderDefs MimeDefs NamesDefs IODefs MainDefs EvalDefs InterpDefs ScanDefs InspectDefs ConfDefs DateDefs ConcDefs.
+From MD Require Import Bytes Generated DecodeDefs HeaderDefs MimeDefs NamesDefs IODefs MainDefs EvalDefs InterpDefs ScanDefs InspectDefs ConfDefs DateDefs ConcDefs ExecDefs.
 Extraction "mdmodel.ml" Bytes.cview DecodeDefs.base64_decode_raw DecodeDefs.base64_decode
   DecodeDefs.quoted_printable_decode DecodeDefs.rfc2047_decode
   HeaderDefs.parse_message HeaderDefs.get_header HeaderDefs.set_header HeaderDefs.message_write
@@ -20,4 +20,6 @@ Extraction "mdmodel.ml" Bytes.cview DecodeDefs.base64_decode_raw DecodeDefs.base
   InspectDefs.inspect_entry InspectDefs.mbw_c InspectDefs.mbw_utf8 InspectDefs.dry_lines
   ScanDefs.ix_findheader ScanDefs.ix_unfoldheader ScanDefs.ix_parseboundary ScanDefs.ix_skipseparator ScanDefs.ix_findboundary
   ScanDefs.pa_walk HeaderDefs.findheader HeaderDefs.unfoldheader HeaderDefs.skipseparator MimeDefs.parseboundary MimeDefs.findboundary
-  InterpDefs.interp InterpDefs.label_value InterpDefs.exec_argv InterpDefs.expandmacros InterpDefs.fold_case.
+  InterpDefs.interp InterpDefs.label_value InterpDefs.exec_argv InterpDefs.expandmacros InterpDefs.fold_case
+  ExecDefs.child_tz
+  NamesDefs.compute NamesDefs.e_message_path NamesDefs.e_delivered_path NamesDefs.e_tmp_template.
